@@ -333,6 +333,18 @@ def cps(tier):
     return r
 
 
+def _double_quoted(name):
+    out = []
+    for ch in name:
+        if ch in '"\\':
+            out.append("\\" + ch)
+        elif ord(ch) < 0x20:
+            out.append("\\u%04x" % ord(ch))
+        else:
+            out.append(ch)
+    return '"' + "".join(out) + '"'
+
+
 SPECIAL = ["'", '"', "\\", "/", "\x00", "\x08", "\x0b", "\x1f", " ", "\x7f", "\x80", "\U0001F600", "a"]
 SYNTAX_CHARS = list("$@.[]()?*,:!&|=<>-+#%{}") + ["&&", "||", "==", "$.", "@.", "..", "[?", "$[", "@["]
 NESTED_ATOMS = [
@@ -396,6 +408,12 @@ def run_shard(desc):
                 for full in (False, True):
                     txt, _ = render(t, iter(ATOMS), iter(ops), iter(negs), iter(kinds), full)
                     do(f"$[?{txt}]", "tt", with_ref=(thorough or n < 4))
+                    if (n <= 3 or thorough) and not full:
+                        # the filter is not the last / not the only selector of its segment, and nested
+                        do(f"$[?{txt}, 0]", "tt", with_ref=False)
+                        do(f"$[0, ?{txt}]", "tt", with_ref=False)
+                        do(f"$[?@[?{txt}, 'a']]", "tt", with_ref=False)
+                        do(f"$[?count(@[?{txt}, 0]) > 1]", "tt", with_ref=False)
     elif sp == "corpus":
         for q in gs.corpus():
             if diff.ast_of(q).cls == "valid":
@@ -412,8 +430,12 @@ def run_shard(desc):
                 name = "".join(combo)
                 lit = rpaths.render_name(name)
                 do(f"$[{lit}]", special={name: 1, "x": 2})
+                # the same name spelled with double quotes: str() has to re-spell it (single-quoted)
+                dq = _double_quoted(name)
+                do(f"$[{dq}]", special={name: 1, "x": 2})
                 if k < 3:
                     do(f"$[?@ == {lit} || @.k == {lit}]", special=[name, {"k": name}, "x"])
+                    do(f"$[?@ == {dq} || @.k == {lit}]", special=[name, {"k": name}, "x"])
     elif sp == "logical_args":
         # Boolean expressions as the argument of a LogicalType parameter (printed by the
         # expression classes' own __str__, not by the filter's canonical printer)
